@@ -1575,6 +1575,18 @@ static void compile_expr(CG *cg, ASTNode *node) {
                 default:
                     cg_error(cg, node->line, "unsupported unary operator %d", op);
             }
+        } else if (argc == 2 && (op == TOKEN_AND || op == TOKEN_OR)) {
+            /* Short-circuit: the right operand is evaluated only when the left one
+             * does not decide the result (spec 4.3; the native backend emits && / ||). */
+            compile_expr(cg, args[0]);
+            uint32_t js_instr = cg->code_size;
+            uint32_t js_off = emit_op(cg, op == TOKEN_AND ? OP_JMP_FALSE : OP_JMP_TRUE, (int32_t)0);
+            compile_expr(cg, args[1]);
+            uint32_t je_instr = cg->code_size;
+            uint32_t je_off = emit_op(cg, OP_JMP, (int32_t)0);
+            patch_jump(cg, js_off + 1, js_instr, cg->code_size);
+            emit_op(cg, OP_PUSH_BOOL, op == TOKEN_AND ? 0 : 1);
+            patch_jump(cg, je_off + 1, je_instr, cg->code_size);
         } else if (argc == 2) {
             /* Binary operators */
             compile_expr(cg, args[0]);
